@@ -120,6 +120,13 @@ def judge(h, parsed, rc, timed_out, out):
                 return "inconclusive", ["canary failed for an unexpected reason: %s" % rest[0]["desc"]], failed, cov
             return "pass", reasons, [], cov
         # must_panic: the expected panic check fails, nothing else fails, "returned normally" covers are UNSAT
+        # `forbid_fail`: failure sites that ARE the violation for this harness (e.g. the allocation-error handler - which
+        # aborts - where the property demands the unwinding "claimed" panic). Opt-in per harness: in general a panic
+        # through another function than the expected one is only *inconclusive* (a refactoring may rename the site).
+        forbid = [re.compile(x) for x in h.get("forbid_fail", [])]
+        forbidden = [c for c in failed if any(r.search(c["desc"] + " @ " + c["func"] + " @ " + c["name"]) for r in forbid)]
+        if forbidden:
+            return "violation", ["the method ended in a failure path the property excludes: %s" % forbidden[0]["desc"]], forbidden, cov
         if not hits:
             # no panic reachable at all => the method returned normally or diverged silently
             bad_unsat = [c for c in cov["bad"] if c["desc"].startswith("UNSAT:")]
